@@ -11,15 +11,26 @@ H(module, name, ...) fields
 
 class H:
     def __init__(self, mod, name, tier="quick", cfg="default", timeout=300, mem=8, bounds="", stubs=(),
-                 funcs=(), c01=False, expect_fail=False):
+                 funcs=(), c01=False, expect_fail=False, twin=None):
         self.mod, self.name, self.tier, self.cfg = mod, name, tier, cfg
         self.timeout, self.mem, self.bounds, self.stubs, self.funcs = timeout, mem, bounds, list(stubs), list(funcs)
         self.c01 = c01                  # unwinding-assertion failure counts as a violation (non-termination)
         self.expect_fail = expect_fail  # false twin: must come back FAILED (vacuity guard)
+        self.twin = twin                # un-stubbed twin function used to replay a stubbed harness's counterexample natively
 
     @property
     def fq(self):
         return "%s::%s" % (self.mod, self.name)
+
+    @property
+    def key(self):
+        return self.fq if self.cfg == "default" else "%s@%s" % (self.fq, self.cfg)
+
+    def clone(self, **kw):
+        h = H(self.mod, self.name, self.tier, self.cfg, self.timeout, self.mem, self.bounds, self.stubs, self.funcs, self.c01, self.expect_fail, self.twin)
+        for k, v in kw.items():
+            setattr(h, k, v)
+        return h
 
 
 PROPS = {}
@@ -65,6 +76,136 @@ reg("C03",
                 "heartbeat_2", "heartbeat_3", "heartbeat_4", "heartbeat_6")],
     )
 
+# ------------------------------------------------------------------------------------------------ C04
+C04_BOUNDS = {
+    "c04_client_hello_38": "ClientHello body, 38 B (minimal) concrete length, all bytes symbolic",
+    "c04_client_hello_41": "ClientHello body, 41 B concrete length, all bytes symbolic (session id <= 3, <= 1 cipher, extension block)",
+    "c04_client_hello_44": "ClientHello body, 44 B concrete length, all bytes symbolic",
+    "c04_client_hello_20": "ClientHello body cut off at 20 B: mandatory field cut off",
+    "c04_dispatch_wiring": "<= 10 B symbolic length; handshake type over all 256 values, 24-bit length symbolic; all body parsers stubbed",
+    "c04_new_session_ticket": "<= 9 B symbolic length; len argument over the full usize range",
+    "c04_certificate": "<= 11 B symbolic length: up to 2 certificates, all u24 length fields symbolic",
+    "c04_certificate_request": "<= 9 B symbolic length; both forms",
+}
+reg("C04",
+    H("c04", "c04_client_hello_shape_min", bounds="ClientHello of concrete shape: no session id, no ciphers, no compressions, no extension block; contents symbolic", funcs=["parse_tls_handshake_client_hello"]),
+    H("c04", "c04_client_hello_shape_sid32_c2_m1_ext0", bounds="ClientHello of concrete shape: 32-byte session id, 2 ciphers, 1 compression, empty extension block; contents symbolic", funcs=["parse_tls_handshake_client_hello"], timeout=600),
+    H("c04", "c04_client_hello_shape_sid1_c3_m2_ext2", bounds="ClientHello of concrete shape: 1-byte session id, 3 ciphers, 2 compressions, 2-byte extension block; contents symbolic", funcs=["parse_tls_handshake_client_hello"], timeout=600),
+    H("c04", "c04_client_hello_sid33_rejected", bounds="session-id length byte 33, everything else symbolic", funcs=["parse_tls_handshake_client_hello"]),
+    H("c04", "c04_server_hello_draft18_40", tier="quick", timeout=600, mem=8, bounds=C04_BOUNDS.get("c04_server_hello_draft18_40", "symbolic bytes; see harness source"), funcs=["server_hello_draft18_40"]),
+    H("c04", "c04_server_hello_unsupported_version", tier="quick", timeout=600, mem=8, bounds=C04_BOUNDS.get("c04_server_hello_unsupported_version", "symbolic bytes; see harness source"), funcs=["server_hello_unsupported_version"]),
+    H("c04", "c04_new_session_ticket", tier="quick", timeout=600, mem=8, bounds=C04_BOUNDS.get("c04_new_session_ticket", "symbolic bytes; see harness source"), funcs=["new_session_ticket"]),
+    H("c04", "c04_hello_retry_request", tier="quick", timeout=600, mem=8, bounds=C04_BOUNDS.get("c04_hello_retry_request", "symbolic bytes; see harness source"), funcs=["hello_retry_request"]),
+    H("c04", "c04_certificate", tier="quick", timeout=600, mem=8, bounds=C04_BOUNDS.get("c04_certificate", "symbolic bytes; see harness source"), funcs=["certificate"]),
+    H("c04", "c04_certificate_status", tier="quick", timeout=600, mem=8, bounds=C04_BOUNDS.get("c04_certificate_status", "symbolic bytes; see harness source"), funcs=["certificate_status"]),
+    H("c04", "c04_next_protocol", tier="quick", timeout=600, mem=8, bounds=C04_BOUNDS.get("c04_next_protocol", "symbolic bytes; see harness source"), funcs=["next_protocol"]),
+    H("c04", "c04_key_update_and_hello_request", tier="quick", timeout=600, mem=8, bounds=C04_BOUNDS.get("c04_key_update_and_hello_request", "symbolic bytes; see harness source"), funcs=["key_update_and_hello_request"]),
+    H("c04", "c04_certificate_request", tier="quick", timeout=600, mem=8, bounds=C04_BOUNDS.get("c04_certificate_request", "symbolic bytes; see harness source"), funcs=["certificate_request"]),
+    H("c04", "c04_dispatch_wiring", tier="quick", timeout=900, mem=12, stubs=["all 15 parse_tls_handshake_msg_* body parsers (marker stubs)"], bounds=C04_BOUNDS.get("c04_dispatch_wiring", "symbolic bytes; see harness source"), funcs=["dispatch_wiring"]),
+    H("c04", "c04_client_hello_38", tier="quick", timeout=900, mem=12, bounds=C04_BOUNDS.get("c04_client_hello_38", "symbolic bytes; see harness source"), funcs=["client_hello_38"]),
+    H("c04", "c04_client_hello_41", tier="quick", timeout=900, mem=16, bounds=C04_BOUNDS.get("c04_client_hello_41", "symbolic bytes; see harness source"), funcs=["client_hello_41"]),
+    H("c04", "c04_client_hello_44", tier="thorough", timeout=1500, mem=16, bounds=C04_BOUNDS.get("c04_client_hello_44", "symbolic bytes; see harness source"), funcs=["client_hello_44"]),
+    H("c04", "c04_client_hello_20", tier="quick", timeout=600, mem=8, bounds=C04_BOUNDS.get("c04_client_hello_20", "symbolic bytes; see harness source"), funcs=["client_hello_20"]),
+    H("c04", "c04_server_hello_tls12_42", tier="quick", timeout=600, mem=8, bounds=C04_BOUNDS.get("c04_server_hello_tls12_42", "symbolic bytes; see harness source"), funcs=["server_hello_tls12_42"]),
+    H("c04", "c04_server_hello_tls10_40", tier="quick", timeout=600, mem=8, bounds=C04_BOUNDS.get("c04_server_hello_tls10_40", "symbolic bytes; see harness source"), funcs=["server_hello_tls10_40"]),
+    H("c04", "c04_server_hello_tls11_38", tier="quick", timeout=600, mem=8, bounds=C04_BOUNDS.get("c04_server_hello_tls11_38", "symbolic bytes; see harness source"), funcs=["server_hello_tls11_38"]),
+    H("c04", "c04_server_hello_ssl3_40", tier="quick", timeout=600, mem=8, bounds=C04_BOUNDS.get("c04_server_hello_ssl3_40", "symbolic bytes; see harness source"), funcs=["server_hello_ssl3_40"]),
+    H("c04", "c04_server_key_exchange", tier="quick", timeout=600, mem=8, bounds=C04_BOUNDS.get("c04_server_key_exchange", "symbolic bytes; see harness source"), funcs=["server_key_exchange"]),
+    H("c04", "c04_server_done", tier="quick", timeout=600, mem=8, bounds=C04_BOUNDS.get("c04_server_done", "symbolic bytes; see harness source"), funcs=["server_done"]),
+    H("c04", "c04_certificate_verify", tier="quick", timeout=600, mem=8, bounds=C04_BOUNDS.get("c04_certificate_verify", "symbolic bytes; see harness source"), funcs=["certificate_verify"]),
+    H("c04", "c04_finished", tier="quick", timeout=600, mem=8, bounds=C04_BOUNDS.get("c04_finished", "symbolic bytes; see harness source"), funcs=["finished"]),
+    H("c04", "c04_client_key_exchange", tier="quick", timeout=600, mem=8, bounds=C04_BOUNDS.get("c04_client_key_exchange", "symbolic bytes; see harness source"), funcs=["client_key_exchange"]),
+    H("c04", "c04_e2e_client_hello_41", tier="quick", timeout=900, mem=16, bounds=C04_BOUNDS.get("c04_e2e_client_hello_41", "symbolic bytes; see harness source"), funcs=["e2e_client_hello_41"]),
+    H("c04", "c04_e2e_finished_3", tier="quick", timeout=600, mem=8, bounds=C04_BOUNDS.get("c04_e2e_finished_3", "symbolic bytes; see harness source"), funcs=["e2e_finished_3"]),
+    H("c04", "c04_e2e_new_session_ticket_3", tier="quick", timeout=600, mem=8, bounds=C04_BOUNDS.get("c04_e2e_new_session_ticket_3", "symbolic bytes; see harness source"), funcs=["e2e_new_session_ticket_3"]),
+    H("c04", "c04_e2e_new_session_ticket_6", tier="quick", timeout=600, mem=8, bounds=C04_BOUNDS.get("c04_e2e_new_session_ticket_6", "symbolic bytes; see harness source"), funcs=["e2e_new_session_ticket_6"]),
+    H("c04", "c04_e2e_certificate_status_5", tier="quick", timeout=600, mem=8, bounds=C04_BOUNDS.get("c04_e2e_certificate_status_5", "symbolic bytes; see harness source"), funcs=["e2e_certificate_status_5"]),
+    H("c04", "c04_e2e_next_protocol_4", tier="quick", timeout=600, mem=8, bounds=C04_BOUNDS.get("c04_e2e_next_protocol_4", "symbolic bytes; see harness source"), funcs=["e2e_next_protocol_4"]),
+    H("c04", "c04_e2e_key_update_0", tier="quick", timeout=600, mem=8, bounds=C04_BOUNDS.get("c04_e2e_key_update_0", "symbolic bytes; see harness source"), funcs=["e2e_key_update_0"]),
+    H("c04", "c04_e2e_server_hello_38", tier="quick", timeout=900, mem=12, bounds=C04_BOUNDS.get("c04_e2e_server_hello_38", "symbolic bytes; see harness source"), funcs=["e2e_server_hello_38"]),
+    )
+
+# ------------------------------------------------------------------------------------------------ C05
+reg("C05",
+    H("c05", "c05_dispatch_generic", twin="c05_dispatch_generic_native", timeout=900, mem=12, stubs=["all 26 extension content parsers (echo markers)"], bounds="<= 8 B symbolic length; extension type over all 65536 values, length field symbolic", funcs=["parse_tls_extension"]),
+    H("c05", "c05_dispatch_client", twin="c05_dispatch_client_native", timeout=900, mem=12, stubs=["all 26 extension content parsers (echo markers)"], bounds="<= 8 B symbolic length; extension type over all 65536 values, length field symbolic", funcs=["parse_tls_client_hello_extension"]),
+    H("c05", "c05_dispatch_server", twin="c05_dispatch_server_native", timeout=900, mem=12, stubs=["all 26 extension content parsers (echo markers)"], bounds="<= 8 B symbolic length; extension type over all 65536 values, length field symbolic", funcs=["parse_tls_server_hello_extension"]),
+    H("c05", "c05_tag_sni", timeout=600, bounds="type bytes symbolic over all 65536 values, concrete well-formed body, symbolic trailing byte", funcs=["parse_tls_extension_sni", "parse_tls_extension"]),
+    H("c05", "c05_tag_max_fragment_length", timeout=600, bounds="type bytes symbolic over all 65536 values, concrete well-formed body, symbolic trailing byte", funcs=["parse_tls_extension_max_fragment_length", "parse_tls_extension"]),
+    H("c05", "c05_tag_status_request", timeout=600, bounds="type bytes symbolic over all 65536 values, concrete well-formed body, symbolic trailing byte", funcs=["parse_tls_extension_status_request", "parse_tls_extension"]),
+    H("c05", "c05_tag_elliptic_curves", timeout=600, bounds="type bytes symbolic over all 65536 values, concrete well-formed body, symbolic trailing byte", funcs=["parse_tls_extension_elliptic_curves", "parse_tls_extension"]),
+    H("c05", "c05_tag_ec_point_formats", timeout=600, bounds="type bytes symbolic over all 65536 values, concrete well-formed body, symbolic trailing byte", funcs=["parse_tls_extension_ec_point_formats", "parse_tls_extension"]),
+    H("c05", "c05_tag_signature_algorithms", timeout=600, bounds="type bytes symbolic over all 65536 values, concrete well-formed body, symbolic trailing byte", funcs=["parse_tls_extension_signature_algorithms", "parse_tls_extension"]),
+    H("c05", "c05_tag_heartbeat", timeout=600, bounds="type bytes symbolic over all 65536 values, concrete well-formed body, symbolic trailing byte", funcs=["parse_tls_extension_heartbeat", "parse_tls_extension"]),
+    H("c05", "c05_tag_encrypt_then_mac", timeout=600, bounds="type bytes symbolic over all 65536 values, concrete well-formed body, symbolic trailing byte", funcs=["parse_tls_extension_encrypt_then_mac", "parse_tls_extension"]),
+    H("c05", "c05_tag_extended_master_secret", timeout=600, bounds="type bytes symbolic over all 65536 values, concrete well-formed body, symbolic trailing byte", funcs=["parse_tls_extension_extended_master_secret", "parse_tls_extension"]),
+    H("c05", "c05_tag_session_ticket", timeout=600, bounds="type bytes symbolic over all 65536 values, concrete well-formed body, symbolic trailing byte", funcs=["parse_tls_extension_session_ticket", "parse_tls_extension"]),
+    H("c05", "c05_tag_key_share", timeout=600, bounds="type bytes symbolic over all 65536 values, concrete well-formed body, symbolic trailing byte", funcs=["parse_tls_extension_key_share", "parse_tls_extension"]),
+    H("c05", "c05_tag_pre_shared_key", timeout=600, bounds="type bytes symbolic over all 65536 values, concrete well-formed body, symbolic trailing byte", funcs=["parse_tls_extension_pre_shared_key", "parse_tls_extension"]),
+    H("c05", "c05_tag_early_data", timeout=600, bounds="type bytes symbolic over all 65536 values, concrete well-formed body, symbolic trailing byte", funcs=["parse_tls_extension_early_data", "parse_tls_extension"]),
+    H("c05", "c05_tag_supported_versions", timeout=600, bounds="type bytes symbolic over all 65536 values, concrete well-formed body, symbolic trailing byte", funcs=["parse_tls_extension_supported_versions", "parse_tls_extension"]),
+    H("c05", "c05_tag_cookie", timeout=600, bounds="type bytes symbolic over all 65536 values, concrete well-formed body, symbolic trailing byte", funcs=["parse_tls_extension_cookie", "parse_tls_extension"]),
+    H("c05", "c05_tag_psk_key_exchange_modes", timeout=600, bounds="type bytes symbolic over all 65536 values, concrete well-formed body, symbolic trailing byte", funcs=["parse_tls_extension_psk_key_exchange_modes", "parse_tls_extension"]),
+    H("c05", "c05_content_sni_0", timeout=600, bounds="type and content length concrete, content bytes and trailing byte symbolic", funcs=["parse_tls_extension -> sni_0 content parser"]),
+    H("c05", "c05_content_sni_8", timeout=600, bounds="type and content length concrete, content bytes and trailing byte symbolic", funcs=["parse_tls_extension -> sni_8 content parser"]),
+    H("c05", "c05_content_max_fragment_length_1", timeout=600, bounds="type and content length concrete, content bytes and trailing byte symbolic", funcs=["parse_tls_extension -> max_fragment_length_1 content parser"]),
+    H("c05", "c05_content_max_fragment_length_0", timeout=600, bounds="type and content length concrete, content bytes and trailing byte symbolic", funcs=["parse_tls_extension -> max_fragment_length_0 content parser"]),
+    H("c05", "c05_content_status_request_0", timeout=600, bounds="type and content length concrete, content bytes and trailing byte symbolic", funcs=["parse_tls_extension -> status_request_0 content parser"]),
+    H("c05", "c05_content_status_request_4", timeout=600, bounds="type and content length concrete, content bytes and trailing byte symbolic", funcs=["parse_tls_extension -> status_request_4 content parser"]),
+    H("c05", "c05_content_groups_6", timeout=600, bounds="type and content length concrete, content bytes and trailing byte symbolic", funcs=["parse_tls_extension -> groups_6 content parser"]),
+    H("c05", "c05_content_point_formats_3", timeout=600, bounds="type and content length concrete, content bytes and trailing byte symbolic", funcs=["parse_tls_extension -> point_formats_3 content parser"]),
+    H("c05", "c05_content_signature_algorithms_6", timeout=600, bounds="type and content length concrete, content bytes and trailing byte symbolic", funcs=["parse_tls_extension -> signature_algorithms_6 content parser"]),
+    H("c05", "c05_content_heartbeat_1", timeout=600, bounds="type and content length concrete, content bytes and trailing byte symbolic", funcs=["parse_tls_extension -> heartbeat_1 content parser"]),
+    H("c05", "c05_content_alpn_7", timeout=600, bounds="type and content length concrete, content bytes and trailing byte symbolic", funcs=["parse_tls_extension -> alpn_7 content parser"]),
+    H("c05", "c05_content_sct_0", timeout=600, bounds="type and content length concrete, content bytes and trailing byte symbolic", funcs=["parse_tls_extension -> sct_0 content parser"]),
+    H("c05", "c05_content_sct_5", timeout=600, bounds="type and content length concrete, content bytes and trailing byte symbolic", funcs=["parse_tls_extension -> sct_5 content parser"]),
+    H("c05", "c05_content_padding_3", timeout=600, bounds="type and content length concrete, content bytes and trailing byte symbolic", funcs=["parse_tls_extension -> padding_3 content parser"]),
+    H("c05", "c05_content_etm_0", timeout=600, bounds="type and content length concrete, content bytes and trailing byte symbolic", funcs=["parse_tls_extension -> etm_0 content parser"]),
+    H("c05", "c05_content_etm_1", timeout=600, bounds="type and content length concrete, content bytes and trailing byte symbolic", funcs=["parse_tls_extension -> etm_1 content parser"]),
+    H("c05", "c05_content_ems_0", timeout=600, bounds="type and content length concrete, content bytes and trailing byte symbolic", funcs=["parse_tls_extension -> ems_0 content parser"]),
+    H("c05", "c05_content_ems_2", timeout=600, bounds="type and content length concrete, content bytes and trailing byte symbolic", funcs=["parse_tls_extension -> ems_2 content parser"]),
+    H("c05", "c05_content_pha_0", timeout=600, bounds="type and content length concrete, content bytes and trailing byte symbolic", funcs=["parse_tls_extension -> pha_0 content parser"]),
+    H("c05", "c05_content_pha_1", timeout=600, bounds="type and content length concrete, content bytes and trailing byte symbolic", funcs=["parse_tls_extension -> pha_1 content parser"]),
+    H("c05", "c05_content_npn_0", timeout=600, bounds="type and content length concrete, content bytes and trailing byte symbolic", funcs=["parse_tls_extension -> npn_0 content parser"]),
+    H("c05", "c05_content_npn_1", timeout=600, bounds="type and content length concrete, content bytes and trailing byte symbolic", funcs=["parse_tls_extension -> npn_1 content parser"]),
+    H("c05", "c05_content_record_size_limit_2", timeout=600, bounds="type and content length concrete, content bytes and trailing byte symbolic", funcs=["parse_tls_extension -> record_size_limit_2 content parser"]),
+    H("c05", "c05_content_session_ticket_3", timeout=600, bounds="type and content length concrete, content bytes and trailing byte symbolic", funcs=["parse_tls_extension -> session_ticket_3 content parser"]),
+    H("c05", "c05_content_key_share_old_3", timeout=600, bounds="type and content length concrete, content bytes and trailing byte symbolic", funcs=["parse_tls_extension -> key_share_old_3 content parser"]),
+    H("c05", "c05_content_key_share_3", timeout=600, bounds="type and content length concrete, content bytes and trailing byte symbolic", funcs=["parse_tls_extension -> key_share_3 content parser"]),
+    H("c05", "c05_content_pre_shared_key_3", timeout=600, bounds="type and content length concrete, content bytes and trailing byte symbolic", funcs=["parse_tls_extension -> pre_shared_key_3 content parser"]),
+    H("c05", "c05_content_cookie_3", timeout=600, bounds="type and content length concrete, content bytes and trailing byte symbolic", funcs=["parse_tls_extension -> cookie_3 content parser"]),
+    H("c05", "c05_content_early_data_0", timeout=600, bounds="type and content length concrete, content bytes and trailing byte symbolic", funcs=["parse_tls_extension -> early_data_0 content parser"]),
+    H("c05", "c05_content_early_data_4", timeout=600, bounds="type and content length concrete, content bytes and trailing byte symbolic", funcs=["parse_tls_extension -> early_data_4 content parser"]),
+    H("c05", "c05_content_early_data_2", timeout=600, bounds="type and content length concrete, content bytes and trailing byte symbolic", funcs=["parse_tls_extension -> early_data_2 content parser"]),
+    H("c05", "c05_content_supported_versions_2", timeout=600, bounds="type and content length concrete, content bytes and trailing byte symbolic", funcs=["parse_tls_extension -> supported_versions_2 content parser"]),
+    H("c05", "c05_content_supported_versions_5", timeout=600, bounds="type and content length concrete, content bytes and trailing byte symbolic", funcs=["parse_tls_extension -> supported_versions_5 content parser"]),
+    H("c05", "c05_content_supported_versions_0", timeout=600, bounds="type and content length concrete, content bytes and trailing byte symbolic", funcs=["parse_tls_extension -> supported_versions_0 content parser"]),
+    H("c05", "c05_content_psk_modes_3", timeout=600, bounds="type and content length concrete, content bytes and trailing byte symbolic", funcs=["parse_tls_extension -> psk_modes_3 content parser"]),
+    H("c05", "c05_content_oid_filters_7", timeout=600, bounds="type and content length concrete, content bytes and trailing byte symbolic", funcs=["parse_tls_extension -> oid_filters_7 content parser"]),
+    H("c05", "c05_content_renegotiation_info_3", timeout=600, bounds="type and content length concrete, content bytes and trailing byte symbolic", funcs=["parse_tls_extension -> renegotiation_info_3 content parser"]),
+    H("c05", "c05_content_esni_12", timeout=600, bounds="type and content length concrete, content bytes and trailing byte symbolic", funcs=["parse_tls_extension -> esni_12 content parser"]),
+    H("c05", "c05_list_generic", timeout=900, mem=12, stubs=["single-extension parser (opaque type/length/data marker)"], bounds="block <= 10 B symbolic length: up to 2 extensions, types and length fields symbolic", funcs=["parse_tls_extensions"]),
+    H("c05", "c05_list_client", timeout=900, mem=12, stubs=["single-extension parser (opaque type/length/data marker)"], bounds="block <= 10 B symbolic length: up to 2 extensions, types and length fields symbolic", funcs=["parse_tls_client_hello_extensions"]),
+    H("c05", "c05_list_server", timeout=900, mem=12, stubs=["single-extension parser (opaque type/length/data marker)"], bounds="block <= 10 B symbolic length: up to 2 extensions, types and length fields symbolic", funcs=["parse_tls_server_hello_extensions"]),
+    H("c05", "c05_derived_tag", bounds="GREASE / unknown type over all 65536 values", funcs=["TlsExtensionType::from(&TlsExtension)"]),
+    )
+
+# ------------------------------------------------------------------------------------------------ C07
+_RP = ["TlsRecordsParser::parse_record", "TlsRecordsParser::parse_record_nocopy", "TlsRecordsParser::reset", "TlsRecordsParser::defrag_in_progress"]
+reg("C07",
+    *[H("c07", "c07_lockstep_2_%s" % k, tier=t, bounds="2 calls; model message length %s, fragment lengths %s+%s (concrete); bytes, content types, operation kinds symbolic" % tuple(k[1:].split("_")),
+        stubs=["parse_tls_record_with_header (model callee)"], funcs=_RP, timeout=900, mem=12)
+      for k, t in (("n2_1_1", "quick"), ("n3_1_2", "quick"), ("n3_2_2", "quick"), ("n1_0_1", "quick"), ("n4_1_1", "thorough"), ("n2_2_0", "thorough"))],
+    *[H("c07", "c07_lockstep_3_%s" % k, tier=t, bounds="3 calls; model message length %s, fragment lengths %s+%s+%s (concrete); bytes, content types, operation kinds symbolic" % tuple(k[1:].split("_")),
+        stubs=["parse_tls_record_with_header (model callee)"], funcs=_RP, timeout=3000, mem=20)
+      for k, t in (("n3_1_1_1", "thorough"), ("n3_0_2_1", "thorough"), ("n4_2_1_1", "thorough"), ("n4_1_0_3", "thorough"), ("n2_1_1_1", "thorough"))],
+    *[H("c07", "c07_heartbeat_e2e_%s" % k, tier=t, bounds="7-byte heartbeat payload split in 2 (%s, concrete); real payload parser; type, payload, padding symbolic" % k,
+        funcs=_RP + ["parse_tls_record_with_header", "parse_tls_message_heartbeat"], timeout=900, mem=12)
+      for k, t in (("cut2_pl2", "quick"), ("cut0_pl1", "quick"), ("cut4_pl4", "thorough"))],
+    *[H("c07", "c07_any_state_step_d%d" % d, bounds="one call (operation kind, content type, %d data bytes symbolic) from an arbitrary valid state: idle with <= 3 left-over bytes or in progress with <= 3 buffered bytes; model message length 1..4 symbolic" % d,
+        stubs=["parse_tls_record_with_header (model callee)"], funcs=_RP + ["verif_from_parts (hook)"], timeout=900, mem=12) for d in (0, 1, 2)],
+    )
+
 # ------------------------------------------------------------------------------------------------ C08
 reg("C08",
     H("c08", "c08_table_k00_06", bounds="25 states x kinds 0..6 x 2 dirs x sid x 256 severities; payload slices <= 2 B, lists <= 1",
@@ -75,6 +216,209 @@ reg("C08",
       funcs=["tls_state_transition", "tls_state_transition_handshake"]),
     H("c08", "c08_flows_witness", bounds="three concrete documented flows of 5-11 steps, symbolic payloads",
       funcs=["tls_state_transition"]),
+    )
+
+# ------------------------------------------------------------------------------------------------ C09
+reg("C09",
+    H("c09", "c09_server_hello_draft18", cfg="serialize", timeout=900, mem=12, bounds="concrete shape, symbolic field contents (see harness)", funcs=["server_hello_draft18"]),
+    H("c09", "c09_client_key_exchange_finished_hello_request", cfg="serialize", timeout=900, mem=12, bounds="concrete shape, symbolic field contents (see harness)", funcs=["client_key_exchange_finished_hello_request"]),
+    H("c09", "c09_change_cipher_spec_message", cfg="serialize", timeout=900, mem=12, bounds="concrete shape, symbolic field contents (see harness)", funcs=["change_cipher_spec_message"]),
+    H("c09", "c09_plaintext_record_of_messages", cfg="serialize", timeout=900, mem=12, bounds="concrete shape, symbolic field contents (see harness)", funcs=["plaintext_record_of_messages"]),
+    H("c09", "c09_plaintext_record_change_cipher_spec", cfg="serialize", timeout=900, mem=12, bounds="concrete shape, symbolic field contents (see harness)", funcs=["plaintext_record_change_cipher_spec"]),
+    H("c09", "c09_extensions_round_trip", cfg="serialize", timeout=900, mem=12, bounds="concrete shape, symbolic field contents (see harness)", funcs=["extensions_round_trip"]),
+    H("c09", "c09_extension_list_round_trip", cfg="serialize", timeout=900, mem=12, bounds="concrete shape, symbolic field contents (see harness)", funcs=["extension_list_round_trip"]),
+    H("c09", "c09_unsupported_values_not_yet_implemented", cfg="serialize", timeout=900, mem=12, bounds="concrete shape, symbolic field contents (see harness)", funcs=["unsupported_values_not_yet_implemented"]),
+    H("c09", "c09_server_hello_nosid_noext", cfg="serialize", timeout=900, mem=12, bounds="concrete shape, symbolic field contents (see harness)", funcs=["server_hello_nosid_noext"]),
+    H("c09", "c09_server_hello_sid2_ext2", cfg="serialize", timeout=900, mem=12, bounds="concrete shape, symbolic field contents (see harness)", funcs=["server_hello_sid2_ext2"]),
+    H("c09", "c09_client_hello_min", cfg="serialize", timeout=900, mem=12, bounds="concrete shape, symbolic field contents (see harness)", funcs=["client_hello_min"]),
+    H("c09", "c09_client_hello_sid1_c2_m1_ext2", cfg="serialize", timeout=900, mem=12, bounds="concrete shape, symbolic field contents (see harness)", funcs=["client_hello_sid1_c2_m1_ext2"]),
+    )
+
+# ------------------------------------------------------------------------------------------------ C10
+_DH = ["parse_dtls_message_handshake"]
+reg("C10",
+    H("c10", "c10_record_header", bounds="<= 15 B symbolic length; epoch, 48-bit sequence, all fields symbolic", funcs=["parse_dtls_record_header"]),
+    H("c10", "c10_record_wiring_small", bounds="<= 18 B symbolic length, all bytes symbolic; content dispatcher stubbed",
+      stubs=["parse_dtls_record_with_header"], funcs=["parse_dtls_plaintext_record"]),
+    H("c10", "c10_record_wiring_cap", bounds="16660-byte zero array, symbolic 13-byte header, symbolic length; content dispatcher stubbed",
+      stubs=["parse_dtls_record_with_header"], funcs=["parse_dtls_plaintext_record"], timeout=600),
+    H("c10", "c10_hs_serverdone", bounds="16 B input, type 14 concrete, length/seq/offset/fragment_length symbolic over full 24/16-bit ranges", funcs=_DH),
+    H("c10", "c10_hs_clientkeyexchange", bounds="16 B input, type 16 concrete, header fields symbolic", funcs=_DH),
+    H("c10", "c10_hs_hello_verify_request", bounds="18 B input, type 3 concrete, header fields symbolic, cookie length symbolic", funcs=_DH + ["parse_dtls_hello_verify_request"]),
+    *[H("c10", "c10_hs_unsupported_%s" % t, bounds="15 B input, unsupported type 0x%s, header fields symbolic" % t, funcs=_DH) for t in ("00", "04", "0c", "14", "ff")],
+    H("c10", "c10_body_client_hello_39", bounds="ClientHello body 39 B (minimal), all body bytes symbolic; header shape concrete", funcs=_DH + ["parse_dtls_client_hello"], timeout=900, mem=20),
+    H("c10", "c10_body_client_hello_44", bounds="ClientHello body 44 B, all body bytes symbolic", funcs=_DH + ["parse_dtls_client_hello"], timeout=1500, mem=24, tier="thorough"),
+    H("c10", "c10_body_client_hello_shape", bounds="ClientHello body of concrete shape (2-byte cookie, 2 ciphers, 1 compression), contents symbolic; elements compared in order", funcs=_DH + ["parse_dtls_client_hello"], timeout=600),
+    H("c10", "c10_body_server_hello_38", bounds="ServerHello body 38 B (minimal), all body bytes symbolic", funcs=_DH + ["parse_tls_server_hello_tlsv12"], timeout=600),
+    H("c10", "c10_body_server_hello_42", bounds="ServerHello body 42 B, all body bytes symbolic", funcs=_DH + ["parse_tls_server_hello_tlsv12"], timeout=600),
+    H("c10", "c10_body_certificate_10", bounds="Certificate body 10 B: up to 2 certificates, all length fields symbolic", funcs=_DH + ["parse_tls_certificate"], timeout=600),
+    H("c10", "c10_record_ccs", bounds="CCS record payload <= 3 B", funcs=["parse_dtls_record_with_header", "parse_dtls_message_changecipherspec"]),
+    H("c10", "c10_record_alert", bounds="alert record payload <= 4 B", funcs=["parse_dtls_record_with_header", "parse_dtls_message_alert"]),
+    H("c10", "c10_record_unknown_00", bounds="content type 0, payload <= 3 B", funcs=["parse_dtls_record_with_header"]),
+    H("c10", "c10_record_unknown_19", bounds="content type 0x19, payload <= 3 B", funcs=["parse_dtls_record_with_header"]),
+    )
+
+# ------------------------------------------------------------------------------------------------ C11
+reg("C11",
+    H("c11", "c11_raw_record_type_and_version", bounds="one/two fields symbolic over the full 8/16-bit domain in a concrete well-formed structure"),
+    H("c11", "c11_plaintext_version_alert_fields", bounds="one/two fields symbolic over the full 8/16-bit domain in a concrete well-formed structure"),
+    H("c11", "c11_dtls_record_version", bounds="one/two fields symbolic over the full 8/16-bit domain in a concrete well-formed structure"),
+    H("c11", "c11_heartbeat_type", bounds="one/two fields symbolic over the full 8/16-bit domain in a concrete well-formed structure"),
+    H("c11", "c11_client_hello_version_ciphers_compressions", bounds="one/two fields symbolic over the full 8/16-bit domain in a concrete well-formed structure"),
+    H("c11", "c11_server_hello_cipher_compression", bounds="one/two fields symbolic over the full 8/16-bit domain in a concrete well-formed structure"),
+    H("c11", "c11_hello_retry_request_version_cipher", bounds="one/two fields symbolic over the full 8/16-bit domain in a concrete well-formed structure"),
+    H("c11", "c11_extension_type_unknown_parser", bounds="one/two fields symbolic over the full 8/16-bit domain in a concrete well-formed structure"),
+    H("c11", "c11_supported_groups", bounds="one/two fields symbolic over the full 8/16-bit domain in a concrete well-formed structure"),
+    H("c11", "c11_ec_named_curve_and_esni_group", bounds="one/two fields symbolic over the full 8/16-bit domain in a concrete well-formed structure"),
+    H("c11", "c11_signature_algorithms", bounds="one/two fields symbolic over the full 8/16-bit domain in a concrete well-formed structure"),
+    H("c11", "c11_digitally_signed_algorithms", bounds="one/two fields symbolic over the full 8/16-bit domain in a concrete well-formed structure"),
+    H("c11", "c11_sni_name_type", bounds="one/two fields symbolic over the full 8/16-bit domain in a concrete well-formed structure"),
+    H("c11", "c11_certificate_status_type", bounds="one/two fields symbolic over the full 8/16-bit domain in a concrete well-formed structure"),
+    H("c11", "c11_certificate_request_types", bounds="one/two fields symbolic over the full 8/16-bit domain in a concrete well-formed structure"),
+    H("c11", "c11_psk_modes_and_point_formats", bounds="one/two fields symbolic over the full 8/16-bit domain in a concrete well-formed structure"),
+    H("c11", "c11_ct_version_and_key_update", bounds="one/two fields symbolic over the full 8/16-bit domain in a concrete well-formed structure"),
+    )
+
+# ------------------------------------------------------------------------------------------------ C12
+_CF = ["TlsCipherSuite::from_id", "CIPHERS (phf map generated by build.rs)"]
+reg("C12",
+    H("c12", "c12_lookup_any_id", bounds="id symbolic over all 65536 values through phf/SipHash; four lookup routes; derived sizes on the returned entry", timeout=900,
+      funcs=_CF + ["TryFrom<u16>", "TryFrom<TlsCipherSuiteID>", "TlsCipherSuiteID::get_ciphersuite", "enc_key_size", "enc_block_size", "mac_length"]),
+    *[H("c12", "c12_rows_%d" % k, bounds="rows %d/8 of the table generated from scripts/tls-ciphersuites.txt: all 10 columns, name byte-for-byte, name-token expectations" % k,
+        timeout=900, funcs=_CF) for k in range(8)],
+    *[H("c12", "c12_frozen_%d" % k, bounds="rows %d/8 of the frozen snapshot (oracle-data/tls-ciphersuites.frozen.txt): present and unaltered" % k,
+        timeout=900, funcs=_CF) for k in range(8)],
+    H("c12", "c12_from_name_a", bounds="one registry name (seed-selected) exact / one symbolic ASCII byte at a seed-selected position / strict prefix", timeout=1200, mem=12,
+      funcs=["TlsCipherSuite::from_name", "TryFrom<&str>"]),
+    H("c12", "c12_from_name_b", tier="thorough", bounds="second registry name, as above", timeout=1200, mem=12, funcs=["TlsCipherSuite::from_name", "TryFrom<&str>"]),
+    )
+
+# ------------------------------------------------------------------------------------------------ C13
+reg("C13",
+    H("c13", "c13_dh_params", bounds="<= 12 B symbolic length; three u16 length fields symbolic", funcs=["parse_dh_params"]),
+    H("c13", "c13_ec_parameters", bounds="<= 14 B symbolic length; curve type symbolic over 256 values; six u8 length fields", funcs=["parse_ec_parameters"]),
+    H("c13", "c13_ecdh_params", bounds="<= 12 B symbolic length", funcs=["parse_ecdh_params"]),
+    H("c13", "c13_ecpoint", bounds="<= 6 B symbolic length", funcs=["ECPoint::parse"]),
+    H("c13", "c13_digitally_signed", bounds="<= 8 B symbolic length", funcs=["parse_digitally_signed"]),
+    H("c13", "c13_digitally_signed_old", bounds="<= 6 B symbolic length", funcs=["parse_digitally_signed_old"]),
+    H("c13", "c13_content_and_signature_dh", bounds="<= 12 B symbolic length, ext symbolic", funcs=["parse_content_and_signature::<parse_dh_params>"]),
+    H("c13", "c13_content_and_signature_ecdh", bounds="<= 11 B symbolic length, ext symbolic", funcs=["parse_content_and_signature::<parse_ecdh_params>"]),
+    )
+
+# ------------------------------------------------------------------------------------------------ C14
+reg("C14",
+    H("c14", "c14_sct_single", bounds="<= 53 B symbolic length (minimal SCT is 49 B: ext+signature <= 4 B in the Ok class); all length fields and the 64-bit timestamp symbolic; unwind 34",
+      funcs=["parse_ct_signed_certificate_timestamp", "parse_log_id", "parse_ct_extensions", "parse_digitally_signed"], timeout=600),
+    H("c14", "c14_sct_list_wiring", bounds="list buffer <= 11 B symbolic length, up to 4 entries; single-entry parser stubbed by an opaque length-prefixed marker",
+      stubs=["parse_ct_signed_certificate_timestamp"], funcs=["parse_ct_signed_certificate_timestamp_list"], timeout=600),
+    H("c14", "c14_sct_list_one_shape", bounds="list of exactly one 47-byte entry (shape concrete, contents and inner length fields symbolic)",
+      funcs=["parse_ct_signed_certificate_timestamp_list"], timeout=600),
+    H("c14", "c14_sct_list_1", tier="thorough", bounds="list buffer <= 54 B symbolic length: 0 or 1 entries plus overrunning/cut entries", timeout=900, mem=12,
+      funcs=["parse_ct_signed_certificate_timestamp_list"]),
+    H("c14", "c14_sct_list_2", tier="thorough", bounds="list buffer <= 101 B symbolic length: up to 2 entries", timeout=3000, mem=20,
+      funcs=["parse_ct_signed_certificate_timestamp_list"]),
+    )
+
+# ------------------------------------------------------------------------------------------------ C15
+reg("C15",
+    H("c15", "c15_client_hello_constructed", bounds="random 0..=34 B symbolic length and content, symbolic presence of sid/ext, <= 1 cipher, <= 1 compression",
+      funcs=["TlsClientHelloContents::new", "get_version", "ClientHello::{version,random,rand_time,rand_bytes,session_id,ciphers,comp,ext}"]),
+    H("c15", "c15_client_hello_cipher_lookup", bounds="2 advertised ids: one symbolic over all 65536 values, one registered", timeout=600,
+      funcs=["ClientHello::cipher_suites", "TlsClientHelloContents::get_ciphers", "TlsCipherSuiteID::get_ciphersuite"]),
+    H("c15", "c15_server_hello_constructed", bounds="all scalar arguments symbolic; cipher id over all 65536 values", timeout=600,
+      funcs=["TlsServerHelloContents::new", "get_version", "get_cipher"]),
+    H("c15", "c15_dtls_client_hello_constructed", bounds="random 0..=34 B symbolic, <= 1 cipher", funcs=["impl ClientHello for DTLSClientHello"]),
+    H("c15", "c15_client_hello_parsed", bounds="45-byte ClientHello body of concrete shape (sid 2 B, 1 cipher, 1 compression), contents symbolic",
+      funcs=["parse_tls_handshake_client_hello", "ClientHello accessors"]),
+    )
+
+# ------------------------------------------------------------------------------------------------ C16
+reg("C16",
+    H("c16", "c16_lemma_many1_complete", bounds="nom 7.1.3 many1(complete(p)) on a model parser with Copy output; buffer <= 8 B symbolic length (up to 8 elements)", funcs=["nom::multi::many1", "nom::combinator::complete"]),
+    H("c16", "c16_lemma_many0_complete", bounds="nom 7.1.3 many0(complete(p)) on the same model parser; buffer <= 8 B", funcs=["nom::multi::many0", "nom::combinator::complete"]),
+    H("c16", "c16_tls_parser_is_parse_tls_plaintext", bounds="<= 10 B symbolic length, all bytes symbolic; content dispatcher stubbed for both", stubs=["parse_tls_record_with_header"], funcs=["tls_parser", "parse_tls_plaintext"]),
+    H("c16", "c16_tls_parser_many_two_records", bounds="CCS record + alert record (13 B), payloads and record version symbolic, symbolic truncation point 0..=13", timeout=1200, mem=20,
+      stubs=["15 handshake body parsers (unreachable for these content types)"], funcs=["tls_parser_many", "parse_tls_plaintext"]),
+    H("c16", "c16_dtls_records_two_records", bounds="DTLS CCS record + alert record (29 B), payloads symbolic, symbolic truncation point 0..=29", timeout=1200, mem=20,
+      stubs=["6 DTLS handshake body parsers (unreachable for these content types)"], funcs=["parse_dtls_plaintext_records", "parse_dtls_plaintext_record"]),
+    )
+
+# ------------------------------------------------------------------------------------------------ C17 (E1 part; E2 part in e2_props.py)
+reg("C17",
+    H("c17", "c17_conversions_are_identities", bounds="raw u8 / u16 symbolic over the full domain", funcs=["From/Into, Deref, AsRef, to_be_bytes, from_u16, hash_alg, sign_alg, is_reserved"]),
+    H("c17", "c17_lowerhex_and_display_text", bounds="u16 symbolic over the full domain; text compared with a reference renderer", funcs=["LowerHex for TlsVersion / TlsCipherSuiteID", "Display for TlsCipherSuiteID"]),
+    H("c17", "c17_record_type_display_text", bounds="u8 symbolic over the full domain; names and exact fallback text", funcs=["Display/Debug for TlsRecordType (compiled code, cross-check of E2)"], timeout=600),
+    H("c17", "c17_cipher_id_debug_text", tier="thorough", bounds="u16 symbolic over the full domain through the phf lookup", funcs=["Debug for TlsCipherSuiteID"], timeout=1800, mem=16),
+    )
+
+# ------------------------------------------------------------------------------------------------ C06
+def _pick(prop, names, **kw):
+    idx = {h.name: h for h in PROPS[prop]}
+    return [idx[n].clone(**kw) for n in names]
+
+
+reg("C06",
+    H("c06", "c06_raw_record", timeout=900, mem=12, bounds="one-byte-extension induction on a symbolic buffer (see harness for the size)", funcs=["raw_record"]),
+    H("c06", "c06_encrypted_record", timeout=900, mem=12, bounds="one-byte-extension induction on a symbolic buffer (see harness for the size)", funcs=["encrypted_record"]),
+    H("c06", "c06_dtls_record_header", timeout=900, mem=12, bounds="one-byte-extension induction on a symbolic buffer (see harness for the size)", funcs=["dtls_record_header"]),
+    H("c06", "c06_dh_params", timeout=900, mem=12, bounds="one-byte-extension induction on a symbolic buffer (see harness for the size)", funcs=["dh_params"]),
+    H("c06", "c06_digitally_signed", timeout=900, mem=12, bounds="one-byte-extension induction on a symbolic buffer (see harness for the size)", funcs=["digitally_signed"]),
+    H("c06", "c06_digitally_signed_old", timeout=900, mem=12, bounds="one-byte-extension induction on a symbolic buffer (see harness for the size)", funcs=["digitally_signed_old"]),
+    H("c06", "c06_ec_parameters", timeout=900, mem=12, bounds="one-byte-extension induction on a symbolic buffer (see harness for the size)", funcs=["ec_parameters"]),
+    H("c06", "c06_ecdh_params", timeout=900, mem=12, bounds="one-byte-extension induction on a symbolic buffer (see harness for the size)", funcs=["ecdh_params"]),
+    H("c06", "c06_sct", timeout=900, mem=12, bounds="one-byte-extension induction on a symbolic buffer (see harness for the size)", funcs=["sct"]),
+    H("c06", "c06_msg_finished", timeout=900, mem=12, bounds="one-byte-extension induction on a symbolic buffer (see harness for the size)", funcs=["msg_finished"]),
+    H("c06", "c06_msg_new_session_ticket", timeout=900, mem=12, bounds="one-byte-extension induction on a symbolic buffer (see harness for the size)", funcs=["msg_new_session_ticket"]),
+    H("c06", "c06_msg_certificate_status", timeout=900, mem=12, bounds="one-byte-extension induction on a symbolic buffer (see harness for the size)", funcs=["msg_certificate_status"]),
+    H("c06", "c06_msg_next_protocol", timeout=900, mem=12, bounds="one-byte-extension induction on a symbolic buffer (see harness for the size)", funcs=["msg_next_protocol"]),
+    H("c06", "c06_msg_server_hello", timeout=900, mem=12, bounds="one-byte-extension induction on a symbolic buffer (see harness for the size)", funcs=["msg_server_hello"]),
+    H("c06", "c06_ext_sni", timeout=900, mem=12, bounds="one-byte-extension induction on a symbolic buffer (see harness for the size)", funcs=["ext_sni"]),
+    H("c06", "c06_ext_point_formats", timeout=900, mem=12, bounds="one-byte-extension induction on a symbolic buffer (see harness for the size)", funcs=["ext_point_formats"]),
+    H("c06", "c06_ext_renegotiation_info", timeout=900, mem=12, bounds="one-byte-extension induction on a symbolic buffer (see harness for the size)", funcs=["ext_renegotiation_info"]),
+    H("c06", "c06_ext_esni", timeout=900, mem=12, bounds="one-byte-extension induction on a symbolic buffer (see harness for the size)", funcs=["ext_esni"]),
+    H("c06", "c06_ext_unknown", timeout=900, mem=12, bounds="one-byte-extension induction on a symbolic buffer (see harness for the size)", funcs=["ext_unknown"]),
+    H("c06", "c06_dtls_msg_serverdone", timeout=900, mem=12, bounds="one-byte-extension induction on a symbolic buffer (see harness for the size)", funcs=["dtls_msg_serverdone"]),
+    H("c06", "c06_dtls_msg_hello_verify_request", timeout=900, mem=12, bounds="one-byte-extension induction on a symbolic buffer (see harness for the size)", funcs=["dtls_msg_hello_verify_request"]),
+    # pointer provenance (is_sub / span_is assertions) of the differential families, same bounds as there
+    *_pick("C02", ["c02_raw_small", "c02_encrypted_small", "c02_plaintext_wiring"]),
+    *_pick("C04", ["c04_certificate", "c04_certificate_status", "c04_next_protocol", "c04_e2e_certificate_status_5", "c04_e2e_next_protocol_4", "c04_dispatch_wiring"]),
+    *_pick("C05", ["c05_dispatch_generic", "c05_content_sni_8", "c05_content_esni_12", "c05_list_generic"]),
+    *_pick("C10", ["c10_hs_serverdone", "c10_hs_hello_verify_request"]),
+    *_pick("C13", ["c13_dh_params", "c13_ec_parameters", "c13_ecdh_params", "c13_digitally_signed"]),
+    *_pick("C14", ["c14_sct_single", "c14_sct_list_wiring"]),
+    *_pick("C07", ["c07_lockstep_2_n3_1_2", "c07_heartbeat_e2e_cut2_pl2"]),
+    )
+
+# ------------------------------------------------------------------------------------------------ C01
+reg("C01",
+    H("c01", "c01_heartbeat_any_len_argument", c01=True, timeout=900, mem=12, bounds="all Kani default checks; symbolic input (see harness)", funcs=["heartbeat_any_len_argument"]),
+    H("c01", "c01_heap_client_hello_lists", c01=True, timeout=900, mem=12, bounds="all Kani default checks; symbolic input (see harness)", funcs=["heap_client_hello_lists"]),
+    H("c01", "c01_heap_certificate_chain", c01=True, timeout=900, mem=12, bounds="all Kani default checks; symbolic input (see harness)", funcs=["heap_certificate_chain"]),
+    H("c01", "c01_fmt_display_only", c01=True, timeout=900, mem=12, bounds="all Kani default checks; symbolic input (see harness)", funcs=["fmt_display_only"]),
+    H("c01", "c01_debug_record_header_alert_signed", c01=True, timeout=900, mem=12, bounds="all Kani default checks; symbolic input (see harness)", funcs=["debug_record_header_alert_signed"]),
+    H("c01", "c01_debug_extension_small", c01=True, timeout=900, mem=12, bounds="all Kani default checks; symbolic input (see harness)", funcs=["debug_extension_small"]),
+    H("c01", "c01_fmt_u8_a", c01=True, timeout=900, mem=12, bounds="all Kani default checks; symbolic input (see harness)", funcs=["fmt_u8_a"]),
+    H("c01", "c01_fmt_u8_b", c01=True, timeout=900, mem=12, bounds="all Kani default checks; symbolic input (see harness)", funcs=["fmt_u8_b"]),
+    H("c01", "c01_fmt_u8_c", c01=True, timeout=900, mem=12, bounds="all Kani default checks; symbolic input (see harness)", funcs=["fmt_u8_c"]),
+    H("c01", "c01_fmt_u16_a", c01=True, timeout=900, mem=12, bounds="all Kani default checks; symbolic input (see harness)", funcs=["fmt_u16_a"]),
+    H("c01", "c01_fmt_u16_b", c01=True, timeout=900, mem=12, bounds="all Kani default checks; symbolic input (see harness)", funcs=["fmt_u16_b"]),
+    # every differential harness runs with all Kani default checks; for C01 an unwinding-assertion failure is a violation too
+    *_pick("C02", ["c02_raw_small", "c02_encrypted_small", "c02_header", "c02_raw_cap", "c02_plaintext_wiring", "c02_plaintext_heartbeat_3"], c01=True),
+    *_pick("C03", ["c03_two_ccs", "c03_two_alert", "c03_two_appdata", "c03_two_heartbeat", "c03_two_unknown_ff"], c01=True),
+    *_pick("C04", ["c04_dispatch_wiring", "c04_client_hello_41", "c04_new_session_ticket", "c04_hello_retry_request", "c04_certificate", "c04_certificate_request",
+                   "c04_certificate_status", "c04_next_protocol", "c04_key_update_and_hello_request", "c04_server_key_exchange", "c04_server_done",
+                   "c04_certificate_verify", "c04_finished", "c04_client_key_exchange", "c04_server_hello_tls12_42", "c04_server_hello_draft18_40",
+                   "c04_server_hello_unsupported_version"], c01=True),
+    *_pick("C05", ["c05_dispatch_generic", "c05_dispatch_client", "c05_dispatch_server", "c05_list_generic", "c05_content_sni_8", "c05_content_alpn_7",
+                   "c05_content_oid_filters_7", "c05_content_esni_12", "c05_content_supported_versions_5", "c05_content_status_request_4",
+                   "c05_content_early_data_2", "c05_content_groups_6", "c05_content_signature_algorithms_6", "c05_tag_sni", "c05_tag_supported_versions"], c01=True),
+    *_pick("C07", ["c07_lockstep_2_n3_1_2", "c07_lockstep_2_n1_0_1", "c07_any_state_step_d1", "c07_heartbeat_e2e_cut0_pl1", "c07_any_state_step_d2"], c01=True),
+    *_pick("C10", ["c10_record_header", "c10_record_wiring_small", "c10_hs_serverdone", "c10_hs_clientkeyexchange", "c10_hs_hello_verify_request",
+                   "c10_body_certificate_10", "c10_body_server_hello_42", "c10_record_ccs", "c10_record_alert"], c01=True),
+    *_pick("C13", ["c13_dh_params", "c13_ec_parameters", "c13_ecdh_params", "c13_ecpoint", "c13_digitally_signed", "c13_digitally_signed_old",
+                   "c13_content_and_signature_dh"], c01=True),
+    *_pick("C14", ["c14_sct_single", "c14_sct_list_wiring", "c14_sct_list_one_shape"], c01=True),
+    *_pick("C16", ["c16_lemma_many1_complete", "c16_tls_parser_is_parse_tls_plaintext"], c01=True),
     )
 
 
